@@ -6,9 +6,11 @@
 //	         ciphertext EVERY single-character substitution over base64+'='+'-'+' ',
 //	         every truncation, every one-character insertion, the ciphertext of every
 //	         other key, of every other value, of another name, and the plaintext
+//	         (thorough adds a 4 KiB value, run with Except = none / this name / the other names)
 //	layer B  ordered sets of 2..3 cookies x every Except subset x value tuples; request
 //	         and response cookies in the same exchange; one and several Cookie headers;
-//	         a fixed reduced mutation family on every position while the others stay valid
+//	         a fixed reduced mutation family on every position while the others stay valid,
+//	         and all non-excepted positions manipulated at once
 //	layer C  keys of an invalid length (outcome only: the statement is silent)
 //	layer D  requests that carry the same cookie name twice
 //
@@ -23,10 +25,12 @@ import (
 	"encoding/base64"
 	"encoding/binary"
 	"fmt"
+	"os"
 	"runtime"
 	"sort"
 	"strconv"
 	"strings"
+	"time"
 
 	"github.com/gofiber/fiber/v3"
 	"github.com/gofiber/fiber/v3/middleware/encryptcookie"
@@ -147,7 +151,7 @@ func handler(c fiber.Ctx) error {
 }
 
 func newApp(withMW bool, key string, except []string) *fiber.App {
-	app := fiber.New(fiber.Config{ReadBufferSize: 1 << 16})
+	app := fiber.New(fiber.Config{ReadBufferSize: 1 << 16, DisableDefaultDate: true}) // no wall-clock bytes in recorded responses
 	if withMW {
 		app.Use(encryptcookie.New(encryptcookie.Config{Key: key, Except: except}))
 	}
@@ -1182,6 +1186,11 @@ func main() {
 		for ki := range keys {
 			for ni := range names {
 				for mask := 0; mask < 8; mask++ {
+					// the 4 KiB value (about 740 000 manipulations per ciphertext) runs with three Except
+					// sets only: none, exactly this name, exactly the other names
+					if vi == 7 && mask != 0 && mask != 1<<ni && mask != 7^(1<<ni) {
+						continue
+					}
 					items = append(items, item{Layer: "A", Ki: ki, Ni: ni, Vi: vi, Mask: mask})
 				}
 			}
@@ -1231,12 +1240,24 @@ func main() {
 				layerD(l, it.Ki, it.Ni, vals)
 			}
 			l.Add("work_items", 1)
+			if os.Getenv("VERIF_PROGRESS") != "" {
+				fmt.Fprintf(os.Stderr, "worker %d: item %d/%d layer %s done, evaluations so far %d\n", r.Worker, idx, len(items), it.Layer, l.P.Counters["evaluations"])
+			}
 		}
 		r.Merge(l.P)
 		r.Finish(core.Evidence{})
 		return
 	}
 
+	if r.Deadline.IsZero() {
+		// internal deadline: the tiers keep their wall-clock bound on a loaded machine too
+		// (a run that is cut short ends with exhaustive:false and exit 0)
+		if quick {
+			r.Deadline = r.Start.Add(58 * time.Second)
+		} else {
+			r.Deadline = r.Start.Add(14*time.Minute + 30*time.Second)
+		}
+	}
 	nw := runtime.NumCPU()
 	if nw > len(items) {
 		nw = len(items)
@@ -1263,7 +1284,7 @@ func main() {
 		Coverage: map[string]any{
 			"evaluations":         c["evaluations"],
 			"distinct_nontrivial": c["nontrivial"],
-			"rule": fmt.Sprintf("every request/response exchange with the real middleware over ServeConn is one evaluation. Layer A: %d keys x %d names x %d values x 8 Except subsets, one cookie: issue, replay, then EVERY substitution of every character by each of the %d characters of base64+'='+'-'+' ', every prefix and suffix truncation, every one-character insertion at every position, the ciphertext of each other key, of each other value, of each other name, and the plaintext. Layer B: %d keys x all ordered name tuples of size 2 (value menu %d^2) and 3 (value menu %d^3) x 8 Except subsets: issue, replay in one / in separate Cookie headers while the handler sets cookies again, then a fixed family of ~85 manipulations on each position with the others valid. Layer C: %d invalid keys. Layer D: duplicate-name requests. Non-trivial = an exchange whose request carries at least one cookie that is not an unmodified issued one, or whose response carries a non-excepted non-empty cookie (counted in the loop).",
+			"rule": fmt.Sprintf("every request/response exchange with the real middleware over ServeConn is one evaluation. Layer A: %d keys x %d names x %d values x 8 Except subsets (the 4 KiB value of the thorough tier: 3 Except sets), one cookie: issue, replay, then EVERY substitution of every character by each of the %d characters of base64+'='+'-'+' ', every prefix and suffix truncation, every one-character insertion at every position, the ciphertext of each other key, of each other value, of each other name, and the plaintext. Layer B: %d keys x all ordered name tuples of size 2 (value menu %d^2) and 3 (value menu %d^3) x 8 Except subsets: issue, replay in one / in separate Cookie headers while the handler sets cookies again, then a fixed family of ~85 manipulations on each position with the others valid, then all non-excepted positions manipulated at once. Layer C: %d invalid keys. Layer D: duplicate-name requests. Non-trivial = an exchange whose request carries at least one cookie that is not an unmodified issued one, or whose response carries a non-excepted non-empty cookie (counted in the loop).",
 				len(keys), len(names), nv, len(mutAlpha), len(keysB), len(menu2), len(menu3), len(badKeys)),
 			"bounds": map[string]any{"keys": len(keys), "key_lengths": []int{16, 24, 32}, "names": names, "values": nv, "max_value_bytes": len(vals[nv-1]),
 				"except_subsets": 8, "cookies_per_exchange_max": 3, "mutation_alphabet": mutAlpha, "work_items": len(items), "workers": nw},
